@@ -90,7 +90,7 @@ def ops_in(t, acc=None):
 
 
 # ------------------------------------------------------------------ the grid
-STRS = ["", "a", "b", "ab", "ba", "aab", "abab", "\n", "a\nb", '"', "\\", "a\"b", "ä", " ", "0", "7", "10", "007", "12a", "-1", "+5"]
+STRS = ["", "a", "b", "ab", "ba", "aab", "abab", "\n", "a\nb", '"', "\\", "a\"b", "ä", "€", " ", "0", "7", "10", "007", "12a", "-1", "+5"]
 SHORT = ["", "a", "b", "ab", "ba", "\n", '"', "ä", "0", "7", "10"]
 INTS = [-7, -3, -1, 0, 1, 2, 3, 5, 7, 10]
 SMALL = [-2, -1, 0, 1, 2, 3]
